@@ -57,7 +57,7 @@ func vActJSON(a vAct) map[string]any {
 		return map[string]any{"act": a.Act, "s": a.S}
 	case "SubReject", "SubCheck":
 		return map[string]any{"act": a.Act, "s": a.S, "sp": a.Sp, "f": segs(a.F)}
-	case "Sub1":
+	case "Sub1", "Sub3":
 		return map[string]any{"act": a.Act, "s": a.S}
 	case "Unsub1":
 		return map[string]any{"act": a.Act, "s": a.S, "sp": a.Sp, "P": segs(a.P)}
@@ -272,10 +272,12 @@ func (r *vRecorder) nodeRun(steps int) {
 				case c2 < 3 && r.st[x-1] == "open":
 					e.removeStream(x, true)
 					r.st[x-1] = "removed"
+					r.hookPending[x] = true
 					act = vAct{Act: "RemoveStream", S: x}
 				case c2 < 5 && r.st[x-1] == "removed":
 					e.onStreamClose(x)
 					r.st[x-1] = "gone"
+					delete(r.hookPending, x)
 					act = vAct{Act: "OnStreamClose", S: x}
 				case c2 < 7:
 					on := !r.member[acct+"|"+spc]
@@ -305,11 +307,72 @@ func (r *vRecorder) nodeRun(steps int) {
 				r.checkEvicted(act, 0, after)
 				r.emit(act, r.outView(e.flush(e.allModels()), false), r.stView(true))
 			}
+			// remoteMu taken, interest recorded; parked at AddTagsCtx (unless nothing was accepted)
+			r.advance(s)
 			r.emit(vAct{Act: "Sub1", S: s}, nil, nil)
-			r.releaseSubscribe(s)
+			if r.stage[s] == "tag" {
+				// only the pool may be touched now: a stream leaves the pool while the subscribe holds remoteMu
+				for k := pick(3); k > 0; k-- {
+					x := 1 + pick(cfg.NStreams)
+					if pick(2) == 0 {
+						x = s
+					}
+					if r.st[x-1] == "open" {
+						e.removeStream(x, true)
+						r.st[x-1] = "removed"
+						r.hookPending[x] = true
+						r.stepNo++
+						r.emit(vAct{Act: "RemoveStream", S: x}, r.outView(e.flush(e.allModels()), false), r.stView(false))
+					}
+				}
+				r.probeLock(s)
+				r.advance(s)
+			}
 			r.stepNo++
 			r.checkEvicted(vAct{Act: "Sub2"}, s, e.views(r.universe))
 			r.emit(vAct{Act: "Sub2"}, r.outView(e.flush(e.allModels()), false), r.stView(true))
+			if r.lockFree {
+				// a schedule outside the specification was taken: judge the real state, give the run up
+				r.releaseSubscribe(s)
+				r.viewsSettled()
+				r.driftf("remoteMu is not held while the subscribe tags its stream (AddTagsCtx)")
+				return
+			}
+			if r.stage[s] == "recheck" {
+				// registered and tagged, remoteMu free again, second membership check not yet answered
+				for k := pick(3); k > 0; k-- {
+					spc := []string{"X", "Y"}[pick(2)]
+					acct := cfg.Accounts[pick(2)]
+					before := e.views(r.universe)
+					var act vAct
+					switch c2 := pick(6); {
+					case c2 < 3:
+						on := !r.member[acct+"|"+spc]
+						e.mem.set(acct, spc, on)
+						r.member[acct+"|"+spc] = on
+						act = vAct{Act: "RemoveMember", Acct: acct, Sp: spc}
+						if on {
+							act.Act = "AddMember"
+						}
+					case c2 < 5:
+						e.svc.EvictMember(spc, e.accts[acct].SignKey.GetPublic())
+						act = vAct{Act: "EvictMember", Sp: spc, Acct: acct}
+					default:
+						e.svc.RevalidateMembers(spc, func(account string) bool { return e.mem.isMember(e.acctName(account), spc) })
+						act = vAct{Act: "Revalidate", Sp: spc}
+					}
+					r.stepNo++
+					after := e.views(r.universe)
+					r.noteEviction(act)
+					r.checkWithdrawn(act, before, after)
+					r.checkEvicted(act, 0, after)
+					r.emit(act, r.outView(e.flush(e.allModels()), false), r.stView(true))
+				}
+				r.advance(s)
+				r.stepNo++
+				r.checkEvicted(vAct{Act: "Sub3", S: s}, s, e.views(r.universe))
+				r.emit(vAct{Act: "Sub3", S: s}, r.outView(e.flush(e.allModels()), false), r.stView(true))
+			}
 		case c < 52: // unsubscribe
 			s := 1 + pick(cfg.NStreams)
 			if !r.mayHandle(s) {
@@ -383,12 +446,14 @@ func (r *vRecorder) nodeRun(steps int) {
 			}
 			e.removeStream(s, true)
 			r.st[s-1] = "removed"
+			r.hookPending[s] = true
 			r.emit(vAct{Act: "RemoveStream", S: s}, r.outView(e.flush(e.allModels()), false), r.stView(true))
 		case c < 90: // close hook
 			for i, s := range r.st {
 				if s == "removed" && pick(2) == 0 {
 					hookBefore := e.views(r.universe)
 					e.onStreamClose(i + 1)
+					delete(r.hookPending, i+1)
 					r.checkWithdrawn(vAct{Act: "OnStreamClose", S: i + 1}, hookBefore, e.views(r.universe))
 					r.st[i] = "gone"
 					r.emit(vAct{Act: "OnStreamClose", S: i + 1}, r.outView(e.flush(e.allModels()), false), r.stView(true))
@@ -469,7 +534,8 @@ func TestVerifRecord(t *testing.T) {
 	for i := 0; i < runs; i++ {
 		b := vBehaviour{Cfg: cfg, Src: fmt.Sprintf("recorded-node-run-%d", i), Steps: []vStep{{A: vAct{Act: "recorded"}}}}
 		rp := &vReplayer{rep: rep, b: b, subWait: map[int]int{}, hookPending: map[int]bool{}, laterFrames: map[int]int{},
-			parked: map[int]bool{}, evicted: map[string]int{}, checkedAt: map[int]int{}, raceHeld: map[string]bool{}}
+			parked: map[int]bool{}, evicted: map[string]int{}, checkedAt: map[int]int{}, raceHeld: map[string]bool{},
+			stage: map[int]string{}, subDone: map[int]chan struct{}{}}
 		for _, sp := range []string{"X", "Y", "Z"} {
 			for _, p := range vRecPatterns {
 				if vValidPattern(p) {
